@@ -163,6 +163,7 @@ theorem paramNumber_isDisp (c : Ctx) (m : Bool) : isDisp (paramNumber c m).2 = f
 @[simp] theorem isDisp_pArr (a : Bool) (b : List Int) : isDisp (.pArr a b) = false := rfl
 @[simp] theorem isDisp_tag (a : Int) : isDisp (.tag a) = false := rfl
 @[simp] theorem isDisp_nums (a : Bool) (b : List Int) : isDisp (.nums a b) = false := rfl
+@[simp] theorem isDisp_test (a : Bool) : isDisp (.test a) = false := rfl
 @[simp] theorem isDisp_input (a : Bool) : isDisp (.input a) = false := rfl
 @[simp] theorem isDisp_parseMsg (a : Bytes) : isDisp (.parseMsg a) = false := rfl
 @[simp] theorem isDisp_handler (a : Int) (b : Bytes) : isDisp (.handler a b) = true := rfl
@@ -176,6 +177,7 @@ theorem paramNumber_isDisp (c : Ctx) (m : Bool) : isDisp (paramNumber c m).2 = f
 @[simp] theorem dcore_emit_pArr (c : Ctx) (a : Bool) (b : List Int) : dcore (emit c (.pArr a b)) = dcore c := dcore_emit c _ rfl
 @[simp] theorem dcore_emit_tag (c : Ctx) (a : Int) : dcore (emit c (.tag a)) = dcore c := dcore_emit c _ rfl
 @[simp] theorem dcore_emit_nums (c : Ctx) (a : Bool) (b : List Int) : dcore (emit c (.nums a b)) = dcore c := dcore_emit c _ rfl
+@[simp] theorem dcore_emit_test (c : Ctx) (a : Bool) : dcore (emit c (.test a)) = dcore c := dcore_emit c _ rfl
 @[simp] theorem dcore_emit_parseMsg (c : Ctx) (a : Bytes) : dcore (emit c (.parseMsg a)) = dcore c := dcore_emit c _ rfl
 
 theorem dispatchTrace_bEvs (r : Regs.St) (b : Builtin) : dispatchTrace (Lemmas.Builtin.bEvs r b) = [] := by
